@@ -22,6 +22,8 @@ func (*I4) M() int { return 4 }
 
 type I5 struct{ M func() int }
 
+type u1 struct{ Q int }
+
 type D struct {
 	I1
 	B string
@@ -31,7 +33,7 @@ type E struct {
 	c int
 }
 '''
-INNER_VAL = {"I5": "I5{M: func() int { return 55 }}", "I1": "I1{A: 11}", "I2": 'I2{A: "s2", B: 22}', "I3": "I3{c: 33}", "I4": "I4{B: 44}",
+INNER_VAL = {"u1": "u1{Q: 71}", "I5": "I5{M: func() int { return 55 }}", "I1": "I1{A: 11}", "I2": 'I2{A: "s2", B: 22}', "I3": "I3{c: 33}", "I4": "I4{B: 44}",
              "D": 'D{I1: I1{A: 51}, B: "sd"}', "E": "E{I4: &I4{B: 64}, c: 65}"}
 FIELD_VAL = {("A", "int"): "1", ("A", "string"): '"a"', ("B", "int"): "2", ("c", "int"): "3"}
 
